@@ -111,7 +111,7 @@ def mk_ssh(cfg, jump, keyhost, idx):
         "username": property(lambda self: cfg["user"]),
         "port": property(lambda self: cfg["port"]),
         "ignore_hostkey": property(lambda self: cfg["ign"]),
-        "ssh_config": property(lambda self: list(cfg["opts"])),
+        "ssh_config": (list(cfg["opts"]) if cfg.get("_attr") else property(lambda self: list(cfg["opts"]))),
         "use_multiplexing": property(lambda self: cfg["mux"]),
         "authenticator": property(lambda self: mk_auth(cfg["auth"], keyhost)),
     }
@@ -163,7 +163,7 @@ def grid(rng, thorough):
     muxs = [False, True]
     allc = list(itertools.product(ports, users, hosts_, igns, optss, auths, muxs))
     if not thorough:
-        allc = [c for i, c in enumerate(allc) if i % 3 == 0]
+        allc = rng.sample(allc, len(allc) // 3)      # a random third (strides would alias with the last dimensions)
     for port, user, host, ign, opts, au, mux in allc:
         yield {"port": port, "user": user, "host": host, "ign": ign, "opts": opts, "auth": au, "mux": mux}
 
@@ -286,15 +286,23 @@ class CopySuite(Suite):
         thorough = tier == "thorough"
         cfgs = list(grid(rng, thorough))
         if not thorough:
-            cfgs = cfgs[::2]
+            cfgs = rng.sample(cfgs, len(cfgs) // 2)
         for cfg in cfgs:
             for pairing in self.PAIRINGS:
                 for direction in ("to_remote", "from_remote"):
                     yield {"cfg": cfg, "pairing": pairing, "dir": direction}
+        # histories: the same machines are used for several transfers in a row (and ssh_config is a plain class
+        # attribute list, as the documentation shows); every transfer must look like the first
+        for cfg in rng.sample(cfgs, min(len(cfgs), 60 if not thorough else 200)):
+            for pairing in ("ssh-jump", "ssh-local"):
+                for direction in ("to_remote", "from_remote"):
+                    yield {"cfg": cfg, "pairing": pairing, "dir": direction, "repeat": rng.randint(2, 3)}
 
     def _setup(self, case):
         rec = Rec()
-        cfg = case["cfg"]
+        cfg = dict(case["cfg"])
+        if case.get("repeat"):
+            cfg["_attr"] = True
         lab = mk_rec_host(0, rec)       # jump host of the ssh machine
         local = mk_rec_host(1, rec)     # an unrelated local host
         pairing = case["pairing"]
@@ -351,16 +359,18 @@ class CopySuite(Suite):
             p1, p2 = linux.Path(a, "/src/file"), linux.Path(b, "/dst/file")
         else:
             p1, p2 = linux.Path(b, "/src/file"), linux.Path(a, "/dst/file")
+        n = case.get("repeat", 1)
         try:
-            tcopy(p1, p2)
+            for _ in range(n):
+                tcopy(p1, p2)
         except NotImplementedError:
             return [2]
         except Exception as e:  # noqa
             return [98, type(e).__name__ + ": " + str(e)[:80]]
         ex = [c for c in rec.calls if c[0] == "exec0"]
-        if len(ex) != 1:
+        if len(ex) != n:
             return [97, len(ex)]
-        _, hid, args = ex[0]
+        _, hid, args = ex[-1]        # the LAST transfer of the history
         if args[0] == "cp":
             return [0, hid]
         return [1, hid, args]
